@@ -84,35 +84,30 @@ Proof. exact utf8_stream_lines. Qed.
 Print Assumptions C10_utf8_stream_lines.
 
 Theorem C10_utf8_plain_stream_lines : forall b,
-  (3 <= length b)%nat -> from_bom b = (Utf8, 0%nat) ->
+  from_bom b = (Utf8, 0%nat) ->
   one_chunk b = IoDone (map (fun l => trim_end (lossy_spec l)) (chunks LF b)).
 Proof. exact utf8_plain_stream_lines. Qed.
 Print Assumptions C10_utf8_plain_stream_lines.
 
 (* ---------- T10c: transparency ---------- *)
 
-(* Full statement (REFUTED on the pinned tree, see the witnesses below):
+(* Full statement (REFUTED on the pinned tree, see the witness below):
      forall s, scalar_str s ->
        one_chunk (utf8_enc s) = one_chunk (bom_utf8 ++ utf8_enc s)
        = one_chunk (bom_le ++ utf16le_enc s) = one_chunk (bom_be ++ utf16be_enc s).
-   Proved outside the known classes (D6 is repaired and no longer one of
-   them): [lf_safe s] excludes D5 (a UTF-16 code
-   unit other than U+000A with a byte 0x0A); [good_start] and, for the
-   BOM-less form, a length of at least three bytes exclude D4; a BOM-less
-   text that itself starts with U+FEFF *is* a text with BOM (interpretation).
-   The lines are those of the text, for every faultless delivery schedule. *)
+   Proved outside the one remaining class: [lf_safe s] excludes D5 (a UTF-16
+   code unit other than U+000A with a byte 0x0A).  D4 and D6 are repaired and
+   no longer excluded: no condition on the delivery or on the length of the
+   stream.  A BOM-less text that itself starts with U+FEFF *is* a text with
+   BOM (interpretation).  The lines are those of the text, for EVERY faultless
+   delivery schedule. *)
 Theorem C10_transparency : forall s, scalar_str s -> lf_safe s ->
   forall sch, faultless sch ->
   let L := IoDone (lines_of_text s) in
-  (good_start (length (bom_utf8 ++ utf8_enc s)) sch = true ->
-     read_all_lines (mk_reader (bom_utf8 ++ utf8_enc s) sch) = L) /\
-  (good_start (length (bom_le ++ utf16le_enc s)) sch = true ->
-     read_all_lines (mk_reader (bom_le ++ utf16le_enc s) sch) = L) /\
-  (good_start (length (bom_be ++ utf16be_enc s)) sch = true ->
-     read_all_lines (mk_reader (bom_be ++ utf16be_enc s) sch) = L) /\
-  (good_start (length (utf8_enc s)) sch = true ->
-     (3 <= length (utf8_enc s))%nat -> hd 0 s <> 65279 ->
-     read_all_lines (mk_reader (utf8_enc s) sch) = L).
+  read_all_lines (mk_reader (bom_utf8 ++ utf8_enc s) sch) = L /\
+  read_all_lines (mk_reader (bom_le ++ utf16le_enc s) sch) = L /\
+  read_all_lines (mk_reader (bom_be ++ utf16be_enc s) sch) = L /\
+  (hd 0 s <> 65279 -> read_all_lines (mk_reader (utf8_enc s) sch) = L).
 Proof. exact transparency. Qed.
 Print Assumptions C10_transparency.
 
